@@ -8,20 +8,29 @@ use serde_json::{json, Value};
 
 pub struct CrashCheck {
     pub prof: Profile,
+    /// long logs (> 8 KiB, records of several KiB): writes and prefix lengths are sampled, not enumerated
+    pub big: Profile,
 }
 
 impl CrashCheck {
     pub fn new() -> Self {
         let base = Profile::default();
-        CrashCheck { prof: Profile { gen: GenOpts { max_steps: 5, regen_pct: 10, ..GenOpts::default() }, fault_pct: 10, kill_pct: 0, interrupt_pct: 0, restat_pct: 0, repeat_pct: 5, ..base } }
+        let prof = Profile { gen: GenOpts { max_steps: 5, regen_pct: 10, ..GenOpts::default() }, fault_pct: 10, kill_pct: 0, interrupt_pct: 0, restat_pct: 0, repeat_pct: 5, ..base };
+        let big = Profile { gen: GenOpts { max_steps: 3, regen_pct: 0, ..GenOpts::default() }, big_log_pct: 100, symlink_pct: 0, ..prof.clone() };
+        CrashCheck { prof, big }
     }
 
     fn explore(&self, case: &Case, env: &Env, only: Option<(usize, usize, usize)>) -> CaseOut {
+        self.explore_x(case, env, only, false)
+    }
+
+    fn explore_x(&self, case: &Case, env: &Env, only: Option<(usize, usize, usize)>, big: bool) -> CaseOut {
+        let prof = if big { &self.big } else { &self.prof };
         let mk = |fault| HistOpts { focus: "C07", known: &env.known, fault, extra_rounds: 3, forced: None };
         let mut out = CaseOut::default();
         let mut classes = std::collections::BTreeSet::new();
         let points: Vec<(usize, usize, Option<usize>)>;
-        let reference = run_history_x(case, &self.prof, &env.dir, &mk(None));
+        let reference = run_history_x(case, prof, &env.dir, &mk(None));
         out.evals = 1;
         let hfp = fnv_str(&reference.fp_text);
         out.fp = hfp;
@@ -36,6 +45,10 @@ impl CrashCheck {
                 let mut p = vec![];
                 for (r, lens) in reference.write_lens.iter().enumerate() {
                     for i in 0..lens.len() {
+                        // long logs: the first and last writes of an invocation, every 41st in between, and every long record
+                        if big && lens.len() > 48 && !(i < 12 || i + 12 >= lens.len() || i % 41 == 0 || lens[i] > 200) {
+                            continue;
+                        }
                         p.push((r, i, None));
                     }
                 }
@@ -46,7 +59,7 @@ impl CrashCheck {
         for (r, i, fixed) in points {
             let mut b = fixed.unwrap_or(0);
             loop {
-                let h = run_history_x(case, &self.prof, &env.dir, &mk(Some((r, i, b))));
+                let h = run_history_x(case, prof, &env.dir, &mk(Some((r, i, b))));
                 out.evals += 1;
                 let Some((len, torn)) = h.crashed else { break };
                 classes.extend(h.stats.classes.iter().filter(|c| c.starts_with("crash")).cloned());
@@ -70,7 +83,16 @@ impl CrashCheck {
                 if fixed.is_some() || b >= len {
                     break;
                 }
-                b += 1;
+                b = if !big {
+                    b + 1
+                } else if len <= 200 {
+                    // short records of a long log: both ends and the middle
+                    [1, len / 2, len - 1, len].into_iter().find(|x| *x > b).unwrap_or(len)
+                } else if b < 24 || b + 24 >= len {
+                    b + 1
+                } else {
+                    (b + 97).min(len - 24)
+                };
             }
         }
         out.nontrivial = !out.extra_fps.is_empty();
@@ -106,15 +128,18 @@ impl Check for CrashCheck {
         300
     }
     fn parts(&self, tier: Tier) -> Vec<Part> {
-        vec![Part { name: "crash", kind: PartKind::Random { cases: tier.pick(1600, 20000), main: 90, ops: 3, oplen: 40, sched: 40 } }]
+        vec![
+            Part { name: "crash", kind: PartKind::Random { cases: tier.pick(1600, 20000), main: 90, ops: 3, oplen: 40, sched: 40 } },
+            Part { name: "crash-big", kind: PartKind::Random { cases: tier.pick(16, 480), main: 90, ops: 2, oplen: 40, sched: 40 } },
+        ]
     }
-    fn run_random(&mut self, _part: &str, case: &Case, env: &mut Env) -> CaseOut {
-        self.explore(case, env, None)
+    fn run_random(&mut self, part: &str, case: &Case, env: &mut Env) -> CaseOut {
+        self.explore_x(case, env, None, part == "crash-big")
     }
-    fn run_replay(&mut self, _part: &str, replay: &Value, env: &mut Env) -> CaseOut {
+    fn run_replay(&mut self, part: &str, replay: &Value, env: &mut Env) -> CaseOut {
         let case: Case = serde_json::from_value(replay["case"].clone()).unwrap_or_default();
         let f = &replay["fault"];
         let only = Some((f[0].as_u64().unwrap_or(0) as usize, f[1].as_u64().unwrap_or(0) as usize, f[2].as_u64().unwrap_or(0) as usize));
-        self.explore(&case, env, only)
+        self.explore_x(&case, env, only, part == "crash-big")
     }
 }
